@@ -329,10 +329,12 @@ def load_models(ctx, fresh: bool = True):
         return None, None
 
 
-def sample_goal_shards(ctx, name: str, goals, unfold, nshards: int = 4):
+def sample_goal_shards(ctx, name: str, goals, unfold, nshards: int = 4) -> list[str]:
+    """-> labels of the goals on which the Coq model and the implementation value disagree"""
     from concurrent.futures import ThreadPoolExecutor
     req = ("From Coq Require Import Reals List.\nImport ListNotations.\n"
            "From PD Require Import Model.Num Model.Spectrum Gen.Gen_spectrum.")
+    goals0 = list(goals)
     finite = [g for g in goals if math.isfinite(g[2]) and math.isfinite(g[3])]
     for g in goals:
         if g not in finite:  # cannot be written as a Coq literal: the implementation value itself is the disagreement
@@ -342,4 +344,5 @@ def sample_goal_shards(ctx, name: str, goals, unfold, nshards: int = 4):
     shards = [goals[i::nshards] for i in range(nshards)]
     shards = [s for s in shards if s]
     with ThreadPoolExecutor(len(shards) or 1) as ex:
-        list(ex.map(lambda a: vlib.sample_goals(ctx, f"{name}_{a[0]}", req, a[1], unfold), enumerate(shards)))
+        res = list(ex.map(lambda a: vlib.sample_goals(ctx, f"{name}_{a[0]}", req, a[1], unfold), enumerate(shards)))
+    return [g[0] for g in goals0 if g not in finite] + [lbl for r in res for (lbl, _e, _v) in r]
